@@ -51,6 +51,44 @@ func VerifC37PoolElems(tp *TransactionPool) []VerifC37Elem {
 	return out
 }
 
+// VerifC37Handle keeps the elements a pool held at one moment, so that what a
+// later Candidate call wrote into them (e.err) and whether they are still
+// linked into the pool can be read even after the removal goroutine ran.
+type VerifC37Handle struct {
+	tp    *TransactionPool
+	elems []*txElement
+}
+
+func VerifC37PoolHandle(tp *TransactionPool) *VerifC37Handle {
+	tp.mutex.Lock()
+	defer tp.mutex.Unlock()
+	h := &VerifC37Handle{tp: tp}
+	for e := tp.list.Front(); e != nil; e = e.Next() {
+		h.elems = append(h.elems, e)
+	}
+	return h
+}
+
+// State lists, for the saved elements in their original order: the
+// transaction, direct flag, e.err, and InList = the element is still in the pool.
+func (h *VerifC37Handle) State() ([]VerifC37Elem, []bool) {
+	h.tp.mutex.Lock()
+	defer h.tp.mutex.Unlock()
+	out := make([]VerifC37Elem, len(h.elems))
+	in := make([]bool, len(h.elems))
+	for i, e := range h.elems {
+		el := VerifC37Elem{Tx: e.Value(), Direct: e.ts != 0}
+		if e.err != nil {
+			el.HasErr = true
+			el.ErrCode = int(errors.CodeOf(e.err))
+			el.ErrText = e.err.Error()
+		}
+		out[i] = el
+		in[i] = e.list == h.tp.list
+	}
+	return out, in
+}
+
 // VerifC37PoolReset replaces the element list of the pool by an empty one.
 func VerifC37PoolReset(tp *TransactionPool) {
 	tp.mutex.Lock()
